@@ -9,9 +9,15 @@ import SlogModel.Gen.Facts
                              so the output (`build`) is the text with exactly those spans replaced
                              by `REDACTED` — everything outside them is preserved byte for byte
   * `C14_span_has_at`      : every redacted span contains an '@' with a word character on both sides
-  (completeness — every occurrence of the supported shape lies inside the spans — is stated in
-  DESIGN.md; its proof is work in progress and it is currently decided by the correspondence oracle,
-  which compares the implementation with a reference redactor written from the property's wording.)
+  * `C14_every_at_examined` : the scan never skips an '@': every '@' with a word character on both
+                             sides is inside a redacted span or was rejected by `findStart` (a '/'
+                             directly before the local part) or `findEnd` (no dotted domain / number-like)
+  * `C14_complete_dotted_partial` : an address `loc@label.d…` of the supported shape whose domain is
+                             not number-like has its '@' inside a redacted span, wherever it sits and
+                             whatever surrounds it (back-to-back addresses included).  Partial: domains
+                             cut by the end of the text and the exact extent of the span are decided
+                             by the correspondence oracle (reference redactor written from the
+                             property's wording); "number-like" is wider than "purely numeric" (F-22).
 -/
 
 namespace C14
@@ -174,6 +180,293 @@ theorem C14_length (s : Bytes) :
     (redact s).length + ((spans s).map (fun p => p.2 - p.1)).sum = s.length + 8 * (spans s).length := by
   have := build_length s (spans s) 0 (C14_spans_ordered s) (Nat.zero_le _)
   simpa [redact] using this
+
+/-! ### completeness of the scan -/
+
+theorem indexByte_go_min (s : Bytes) (b i k : Nat) (h : indexByte.go b s i = some k) :
+    ∀ j : Nat, j < k - i → s[j]? ≠ some b := by
+  induction s generalizing i with
+  | nil => simp [indexByte.go] at h
+  | cons x xs ih =>
+    by_cases hx : x = b
+    · simp [indexByte.go, hx] at h
+      subst h; intro j hj; omega
+    · simp only [indexByte.go, hx, if_false] at h
+      have hb := (indexByte_go_some _ _ _ _ h).1
+      intro j hj
+      cases j with
+      | zero => simpa using hx
+      | succ j => simpa using ih _ h j (by omega)
+
+theorem indexByte_go_absent (s : Bytes) (b i : Nat) (h : indexByte.go b s i = none) : ∀ j : Nat, s[j]? ≠ some b := by
+  induction s generalizing i with
+  | nil => intro j; simp
+  | cons x xs ih =>
+    by_cases hx : x = b
+    · simp [indexByte.go, hx] at h
+    · simp only [indexByte.go, hx, if_false] at h
+      intro j
+      cases j with
+      | zero => simpa using hx
+      | succ j => simpa using ih _ h j
+
+/-- `nextAt` finds the first '@' at or after `frm` -/
+theorem nextAt_min (s : Bytes) (frm a' : Nat) (h : nextAt s frm = some a') :
+    ∀ a, frm ≤ a → s[a]? = some 64 → a' ≤ a := by
+  unfold nextAt at h
+  cases hi : indexByte (s.drop frm) 64 with
+  | none => simp [hi] at h
+  | some k =>
+    simp [hi] at h
+    subst h
+    intro a hfa ha
+    have := indexByte_go_min _ _ _ _ hi
+    false_or_by_contra
+    rename_i hlt
+    apply this (a - frm) (by omega)
+    rw [List.getElem?_drop, show frm + (a - frm) = a by omega]; exact ha
+
+theorem nextAt_none (s : Bytes) (frm : Nat) (h : nextAt s frm = none) :
+    ∀ a, frm ≤ a → s[a]? ≠ some 64 := by
+  unfold nextAt at h
+  cases hi : indexByte (s.drop frm) 64 with
+  | some k => simp [hi] at h
+  | none =>
+    intro a hfa ha
+    apply indexByte_go_absent _ _ _ hi (a - frm)
+    rw [List.getElem?_drop, show frm + (a - frm) = a by omega]; exact ha
+
+theorem candidate_lt (s : Bytes) (a : Nat) (h : candidate s a = true) : a + 1 < s.length := by
+  unfold candidate at h
+  simp only [Bool.and_eq_true] at h
+  obtain ⟨_, h2⟩ := h
+  cases hx : s[a + 1]? with
+  | none => simp [hx] at h2
+  | some c =>
+    have := List.getElem?_eq_some_iff.mp hx
+    obtain ⟨hl, _⟩ := this
+    exact hl
+
+/-- the scan never skips an '@': every candidate '@' at or after the current position is either
+inside a redacted span or was examined and rejected by `findStart` / `findEnd` -/
+theorem loop_examines (s : Bytes) (a : Nat) (ha : s[a]? = some 64) (hc : candidate s a = true) :
+    ∀ (fuel sAt sCopied : Nat), s.length ≤ fuel + sAt → sCopied ≤ sAt → sAt ≤ a →
+      (∃ p ∈ loop s fuel sAt sCopied, p.1 ≤ a ∧ a < p.2) ∨
+      (∃ lim, lim ≤ a ∧ (findStart s a lim = none ∨ findEnd s a = none)) := by
+  have hal := candidate_lt s a hc
+  intro fuel
+  induction fuel with
+  | zero => intro sAt sCopied hf _ hsa; omega
+  | succ n ih =>
+    intro sAt sCopied hf hcs hsa
+    unfold loop
+    have hlt : sAt + 1 < s.length := by omega
+    simp only [hlt, if_true]
+    split
+    · rename_i st en hfound
+      have hfe : candidate s sAt = true ∧ findStart s sAt sCopied = some st ∧ findEnd s sAt = some en := by
+        split at hfound
+        · rename_i hcand
+          split at hfound
+          · rename_i h1 h2; simp at hfound; exact ⟨hcand, hfound.1 ▸ h1, hfound.2 ▸ h2⟩
+          · cases hfound
+        · cases hfound
+      obtain ⟨b1, b2⟩ := findStart_bounds s sAt sCopied st hcs hfe.2.1
+      obtain ⟨b3, b4⟩ := findEnd_bounds s sAt en hlt hfe.2.2
+      by_cases hin : a < en
+      · left
+        split
+        · exact ⟨(st, en), by simp, by simp; omega, hin⟩
+        · exact ⟨(st, en), by simp, by simp; omega, hin⟩
+      · split
+        · rename_i a' ha'
+          have h1 := nextAt_some s en a' ha'
+          have h2 := nextAt_min s en a' ha' a (by omega) ha
+          rcases ih a' en (by omega) h1.1 h2 with ⟨p, hp, hpa⟩ | h
+          · left; exact ⟨p, List.mem_cons_of_mem _ hp, hpa⟩
+          · right; exact h
+        · rename_i hn
+          exact absurd ha (nextAt_none s en hn a (by omega))
+    · rename_i hfound
+      by_cases heq : a = sAt
+      · subst heq
+        right
+        refine ⟨sCopied, hcs, ?_⟩
+        simp only [hc, if_true] at hfound
+        cases h1 : findStart s a sCopied with
+        | none => left; rfl
+        | some st =>
+          cases h2 : findEnd s a with
+          | none => right; rfl
+          | some en => simp [h1, h2] at hfound
+      · split
+        · rename_i a' ha'
+          have h1 := nextAt_some s (sAt + 1) a' ha'
+          have h2 := nextAt_min s (sAt + 1) a' ha' a (by omega) ha
+          exact ih a' sCopied (by omega) (by omega) h2
+        · rename_i hn
+          exact absurd ha (nextAt_none s (sAt + 1) hn a (by omega))
+
+/-- **C14 (the scan is complete).** Every '@' with a word character on both sides is inside a redacted
+span, unless `findStart` (a '/' directly before the local part) or `findEnd` (no dotted domain, or a
+number-like one) rejected it. -/
+theorem C14_every_at_examined (s : Bytes) (a : Nat) (ha : s[a]? = some 64) (hc : candidate s a = true) :
+    (∃ p ∈ spans s, p.1 ≤ a ∧ a < p.2) ∨
+    (∃ lim, lim ≤ a ∧ (findStart s a lim = none ∨ findEnd s a = none)) := by
+  unfold spans
+  cases h0 : nextAt s 0 with
+  | none => exact absurd ha (nextAt_none s 0 h0 a (Nat.zero_le _))
+  | some a0 =>
+    simp only
+    have h1 := nextAt_some s 0 a0 h0
+    have h2 := nextAt_min s 0 a0 h0 a (Nat.zero_le _) ha
+    exact loop_examines s a ha hc s.length a0 0 (by omega) (Nat.zero_le _) h2
+
+theorem takeWhile_append_stop {α : Type} (p : α → Bool) (l1 l2 : List α) (h1 : ∀ x ∈ l1, p x = true)
+    (h2 : ∀ x, l2.head? = some x → p x = false) : (l1 ++ l2).takeWhile p = l1 := by
+  induction l1 with
+  | nil =>
+    cases l2 with
+    | nil => rfl
+    | cons y r => simp [List.takeWhile_cons, h2 y rfl]
+  | cons x r ih =>
+    simp only [List.cons_append, List.takeWhile_cons, h1 x (by simp), if_true]
+    rw [ih (fun y hy => h1 y (by simp [hy]))]
+
+/-- `findEnd` accepts a dotted domain: a label of address characters without a dot, a dot, a word
+character, then address characters up to the first other byte — unless the whole is number-like -/
+theorem findEnd_dotted (s : Bytes) (a : Nat) (lbl run post : Bytes) (d : Nat)
+    (hs : s.drop (a + 1) = lbl ++ 46 :: d :: (run ++ post))
+    (hl : ∀ c ∈ lbl, (isAddr c && c != 46) = true) (hd : isWord d = true) (hr : ∀ c ∈ run, isAddr c = true)
+    (hp : ∀ c, post.head? = some c → isAddr c = false)
+    (hn : numLike (lbl ++ 46 :: d :: run) = false) :
+    findEnd s a = some (a + 1 + lbl.length + 2 + run.length) := by
+  unfold findEnd
+  simp only [hs]
+  have h1 : (lbl ++ 46 :: d :: (run ++ post)).takeWhile (fun c => isAddr c && c != 46) = lbl :=
+    takeWhile_append_stop _ _ _ hl (by intro x hx; simp at hx; subst hx; simp)
+  rw [h1, List.drop_left' rfl]
+  simp only [ne_eq, not_true_eq_false, if_false, hd, Bool.not_true, Bool.false_eq_true]
+  have h2 : (run ++ post).takeWhile isAddr = run := takeWhile_append_stop _ _ _ hr hp
+  rw [h2, hn]
+  simp
+
+theorem takeWhile_all {α : Type} (p : α → Bool) (l : List α) (h : ∀ x ∈ l, p x = true) : l.takeWhile p = l := by
+  have := takeWhile_append_stop p l [] h (by simp)
+  simpa using this
+
+theorem isAddr_47 : isAddr 47 = false := by decide
+
+/-- `findStart` rejects only a local part directly preceded by '/' -/
+theorem findStart_ne_none (s : Bytes) (a lim : Nat) (pre loc : Bytes) (hs : s.take a = pre ++ loc)
+    (hlen : a ≤ s.length) (hloc : ∀ c ∈ loc, isAddr c = true)
+    (hpre : ∀ c, pre.getLast? = some c → isAddr c = false ∧ c ≠ 47) (hlim : lim ≤ a) :
+    ∃ st, findStart s a lim = some st ∧ (st = pre.length ∨ (st = lim ∧ pre.length < lim)) := by
+  have ha : a = pre.length + loc.length := by
+    have := congrArg List.length hs
+    simp only [List.length_take, List.length_append] at this; omega
+  have hget : ∀ i, i < a → s[i]? = (pre ++ loc)[i]? := by
+    intro i hi; rw [← hs, List.getElem?_take_of_lt hi]
+  unfold findStart
+  simp only [hs]
+  by_cases hA : lim ≤ pre.length
+  · have hd : (pre ++ loc).drop lim = pre.drop lim ++ loc := by
+      rw [List.drop_append_of_le_length hA]
+    have htw : ((pre ++ loc).drop lim).reverse.takeWhile isAddr = loc.reverse := by
+      rw [hd, List.reverse_append]
+      apply takeWhile_append_stop
+      · intro x hx; exact hloc x (List.mem_reverse.mp hx)
+      · intro x hx
+        rw [List.head?_reverse] at hx
+        have : pre.getLast? = some x := by
+          cases hdp : pre.drop lim with
+          | nil => rw [hdp] at hx; simp at hx
+          | cons y r =>
+            rw [← List.take_append_drop lim pre, List.getLast?_append, hx]; simp
+        exact (hpre x this).1
+    rw [htw, List.length_reverse]
+    refine ⟨pre.length, ?_, Or.inl rfl⟩
+    have e1 : a - loc.length = pre.length := by omega
+    rw [e1]
+    split
+    · rename_i hc
+      exfalso
+      obtain ⟨h1, h2⟩ := hc
+      rw [hget _ (by omega), List.getElem?_append_left (by omega)] at h2
+      have : pre.getLast? = some 47 := by
+        rw [List.getLast?_eq_getElem?]; exact h2
+      exact (hpre 47 this).2 rfl
+    · rfl
+  · have hA' : pre.length < lim := by omega
+    have hd : (pre ++ loc).drop lim = loc.drop (lim - pre.length) := by
+      rw [List.drop_append]
+      simp [List.drop_of_length_le (by omega : pre.length ≤ lim)]
+    have htw : ((pre ++ loc).drop lim).reverse.takeWhile isAddr = (loc.drop (lim - pre.length)).reverse := by
+      rw [hd]
+      apply takeWhile_all
+      intro x hx; exact hloc x (List.mem_of_mem_drop (List.mem_reverse.mp hx))
+    rw [htw, List.length_reverse, List.length_drop]
+    refine ⟨lim, ?_, Or.inr ⟨rfl, hA'⟩⟩
+    have e1 : a - (loc.length - (lim - pre.length)) = lim := by omega
+    rw [e1]
+    split
+    · rename_i hc
+      exfalso
+      obtain ⟨h1, h2⟩ := hc
+      rw [hget _ (by omega), List.getElem?_append_right (by omega)] at h2
+      have hm := List.mem_of_getElem? h2
+      have := hloc 47 hm
+      rw [isAddr_47] at this; cases this
+    · rfl
+
+/-- **C14 (completeness for dotted domains, partial).** An address `loc@lbl.d‹run›` — local part of
+address characters ending in a word character, not directly preceded by an address character or '/';
+first domain label of address characters starting with a word character; a dot; a word character;
+address characters up to the first other byte — whose domain is not number-like (first and last byte
+both digits: known finding F-22 makes this wider than "purely numeric") has its '@' inside a redacted
+span, wherever it sits and whatever surrounds it. -/
+theorem C14_complete_dotted_partial (pre loc lbl run post : Bytes) (d w1 w2 : Nat)
+    (hloc : ∀ c ∈ loc, isAddr c = true) (hw1 : loc.getLast? = some w1) (hw1' : isWord w1 = true)
+    (hpre : ∀ c, pre.getLast? = some c → isAddr c = false ∧ c ≠ 47)
+    (hl : ∀ c ∈ lbl, (isAddr c && c != 46) = true) (hw2 : lbl.head? = some w2) (hw2' : isWord w2 = true)
+    (hd : isWord d = true) (hr : ∀ c ∈ run, isAddr c = true)
+    (hp : ∀ c, post.head? = some c → isAddr c = false)
+    (hn : numLike (lbl ++ 46 :: d :: run) = false) :
+    ∃ p ∈ spans (pre ++ loc ++ 64 :: (lbl ++ 46 :: d :: (run ++ post))),
+      p.1 ≤ pre.length + loc.length ∧ pre.length + loc.length < p.2 := by
+  generalize hs : pre ++ loc ++ 64 :: (lbl ++ 46 :: d :: (run ++ post)) = s
+  have hlen : (pre ++ loc).length = pre.length + loc.length := by simp
+  have htake : s.take (pre.length + loc.length) = pre ++ loc := by
+    rw [← hs, ← hlen, List.take_left' rfl]
+  have hdrop : s.drop (pre.length + loc.length + 1) = lbl ++ 46 :: d :: (run ++ post) := by
+    rw [← hs, ← hlen, ← List.drop_drop, List.drop_left' rfl]; rfl
+  have hat : s[pre.length + loc.length]? = some 64 := by
+    rw [← hs, ← hlen, List.getElem?_append_right (Nat.le_refl _)]
+    rw [Nat.sub_self]; rfl
+  have hle : pre.length + loc.length ≤ s.length := by rw [← hs]; simp
+  have hlocne : loc ≠ [] := by intro h; rw [h] at hw1; simp at hw1
+  have hlpos : 0 < loc.length := List.length_pos_iff.mpr hlocne
+  have hcand : candidate s (pre.length + loc.length) = true := by
+    unfold candidate
+    have h1 : s[pre.length + loc.length - 1]? = some w1 := by
+      rw [← hs, List.getElem?_append_left (by rw [hlen]; omega), List.getElem?_append_right (by omega)]
+      rw [List.getLast?_eq_getElem?] at hw1
+      rw [show pre.length + loc.length - 1 - pre.length = loc.length - 1 by omega]; exact hw1
+    have h2 : s[pre.length + loc.length + 1]? = some w2 := by
+      have : s[pre.length + loc.length + 1]? = (s.drop (pre.length + loc.length + 1))[0]? := by
+        rw [List.getElem?_drop]
+      rw [this, hdrop]
+      cases lbl with
+      | nil => simp at hw2
+      | cons x r => simp at hw2 ⊢; exact hw2
+    simp [h1, h2, hw1', hw2']; omega
+  rcases C14_every_at_examined s _ hat hcand with h | ⟨lim, hlim, h | h⟩
+  · exact h
+  · obtain ⟨st, hst, _⟩ := findStart_ne_none s _ lim pre loc htake hle hloc hpre hlim
+    rw [hst] at h; cases h
+  · rw [findEnd_dotted s _ lbl run post d hdrop hl hd hr hp hn] at h; cases h
+
+example : spans (b!"mail x.y@ex-1.org, bye") = [(5, 17)] := by decide
 
 /-! ### deviations from the letter of "domain not purely numeric" (known findings F-22) -/
 
